@@ -437,6 +437,16 @@ def gen_guards():
     c2 = [ast.unparse(c.args[0]) for c in _calls(get_func(fb, 'fd_derivative'), '_assert')]
     out.append('Definition fdw_guard (n m : Z) : bool := %s.' % ('(n <? m)' if c1 == ['n < m'] else 'true'))
     out.append('Definition fdd_guard (n num_x len_fx : Z) : bool := %s.' % ('((n <? num_x) && (num_x =? len_fx))' if c2 == ['n < num_x', 'num_x == len(fx)'] else 'true'))
+    # extra positional / keyword arguments are forwarded unchanged to fun on every evaluation (C08)
+    gf = get_func(der, '_get_functions')
+    srcg = ast.unparse(gf)
+    fwd = ('def export_fun(x):\n        return fun(x, *args, **kwds)' in srcg and 'fun = self.fun' in srcg and 'return (self.fd_rule.diff, export_fun)' in srcg)
+    call = ast.unparse(get_func(der, '__call__'))
+    fwd2 = 'self._derivative(x_i, args, kwds)' in call and 'def __call__(self, x, *args, **kwds)' in call
+    nz = ast.unparse(get_func(der, '_derivative_nonzero_order'))
+    fwd3 = 'self._get_functions(args, kwds)' in nz and 'self._get_functions(args, kwds)' in ast.unparse(get_func(jac, '_derivative_nonzero_order'))
+    z0 = 'self.fun(x_i, *args, **kwds)' in ast.unparse(get_func(der, '_derivative_zero_order'))
+    out.append('Definition args_forwarded_unchanged : bool := %s.' % ('true' if fwd and fwd2 and fwd3 and z0 else 'false'))
     return '\n'.join(out) + '\n'
 
 def float_const_Q(node):
